@@ -174,6 +174,10 @@ class Application(object):
             cherrypy.log(traceback=True, severity=40)
 
         cherrypy.serving.clear()
+        # The ExceptionTrapper may still have to report an error for this
+        # request: let it honour the request's own setting rather than
+        # the default of the Request class.
+        cherrypy.serving.released_show_tracebacks = req.show_tracebacks
 
     def __call__(self, environ, start_response):
         """Call a WSGI-callable."""
